@@ -29,6 +29,10 @@ type filtEnv struct {
 	st       *state.State
 	f        *rawmessagesfilter.RawMessageFilter
 	scripts  map[uint64]uint64
+	bumps    map[uint64]bool
+	started  []uint64            // heights whose round was started during the current op
+	guar     map[uint64][]uint64 // reference: per future height, the cached messages the statement guarantees, in arrival order
+	maxFut   uint64
 	deliv    []string // deliveries during the current op
 	all      map[uint64]int
 	msgs     map[uint64]filtMsg
@@ -53,6 +57,9 @@ func (h *filtHandler) HandleConsensusMessage(m interfaces.ConsensusMessage) erro
 	if e.all[uid] > 1 {
 		e.c.Violation("C17", "delivered-twice", fmt.Sprintf("message uid=%d delivered %d times", uid, e.all[uid]), replay)
 	}
+	if e.bumps[uid] { // like a NEW_VIEW or an election completing inside the delivery: the view of this height advances
+		e.st.SetView(e.st.View() + 1)
+	}
 	if k := e.scripts[uid]; k > 0 && !h.committed {
 		h.committed = true
 		e.advance(h.height + k)
@@ -64,7 +71,65 @@ func (e *filtEnv) advance(h uint64) {
 	if _, err := e.st.SetHeightAndResetView(primitives.BlockHeight(h)); err != nil {
 		return
 	}
+	e.started = append(e.started, h)
 	e.f.ConsumeCacheMessages(&filtHandler{height: h, env: e})
+}
+
+// reference bookkeeping for "a message for a future height H is delivered exactly once, in arrival
+// order, when the node starts H, provided no accepted-for-caching message for a height above H had
+// been received before it"
+func (e *filtEnv) noteRecv(m filtMsg, heightBefore uint64) {
+	if m.inst != 7 || m.sender == 1 || m.h <= heightBefore {
+		return
+	}
+	if m.h < e.maxFut {
+		return // a higher future height was accepted before: this one may be dropped
+	}
+	if m.h > e.maxFut {
+		e.maxFut = m.h
+		for h := range e.guar {
+			if h < m.h {
+				delete(e.guar, h) // earlier-cached lower heights lose the guarantee
+			}
+		}
+	}
+	e.guar[m.h] = append(e.guar[m.h], m.uid)
+}
+
+func (e *filtEnv) checkStarted(replay string) {
+	now := uint64(e.st.Height())
+	for _, H := range e.started {
+		var got []uint64
+		for _, d := range e.deliv {
+			var t, u uint64
+			fmt.Sscanf(d, "%d:%d", &t, &u)
+			if t == H {
+				got = append(got, u)
+			}
+		}
+		want := e.guar[H]
+		ok := len(got) <= len(want) || len(want) == 0
+		for i := 0; ok && i < len(got) && i < len(want); i++ {
+			if got[i] != want[i] {
+				ok = false
+			}
+		}
+		if len(want) > 0 && !ok {
+			e.c.Violation("C17", "cached-out-of-order", fmt.Sprintf("starting height %d delivered %v, the cached messages in arrival order are %v", H, got, want), replay)
+		}
+		if len(got) < len(want) && now == H {
+			e.c.Violation("C17", "cached-message-lost", fmt.Sprintf("height %d was started and is still being decided, but only %v of the cached messages %v were delivered", H, got, want), replay)
+		}
+		if len(want) > 0 {
+			e.c.Nontrivial(fmt.Sprintf("drain/%d/%d", len(want), len(got)))
+		}
+	}
+	for h := range e.guar {
+		if h <= now {
+			delete(e.guar, h)
+		}
+	}
+	e.started = nil
 }
 
 func (e *filtEnv) snapshot() string {
@@ -86,29 +151,33 @@ func suiteFilter(c *Ctx) {
 		cfg, _, _, _ := simpleConfig(NewWorld(7), []byte{1})
 		f := rawmessagesfilter.NewConsensusMessageFilter(7, []byte{1}, logger.NewLhLogger(cfg, st), st)
 		var sofar []string
-		e := &filtEnv{st: st, f: f, scripts: map[uint64]uint64{}, all: map[uint64]int{}, msgs: map[uint64]filtMsg{}, c: c, opsSoFar: &sofar}
+		e := &filtEnv{st: st, f: f, scripts: map[uint64]uint64{}, bumps: map[uint64]bool{}, guar: map[uint64][]uint64{}, all: map[uint64]int{}, msgs: map[uint64]filtMsg{}, c: c, opsSoFar: &sofar}
 		c.Emit("reset 1 7", "reset")
 		// per-height arrival order of cached messages, to monitor in-order exactly-once delivery
 		for _, op := range ops {
 			e.deliv = nil
 			var kind string
-			var a, b, d, s uint64
-			fmt.Sscanf(op, "%s %d %d %d %d", &kind, &a, &b, &d, &s)
+			var a, b, d, s, vb uint64
+			fmt.Sscanf(op, "%s %d %d %d %d %d", &kind, &a, &b, &d, &s, &vb)
 			if kind == "recv" {
 				uid++
 				m := filtMsg{uid: uid, h: a, inst: b, sender: d, script: s}
 				e.scripts[uid] = s
+				e.bumps[uid] = vb == 1
 				e.msgs[uid] = m
-				line := fmt.Sprintf("recv %d %d %d %d %d", uid, a, b, d, s)
+				line := fmt.Sprintf("recv %d %d %d %d %d %d", uid, a, b, d, s, vb)
 				sofar = append(sofar, line)
 				raw := mkBareRaw(int(uid), b, a, uid, []byte{byte(d)})
+				hb := uint64(st.Height())
 				f.HandleConsensusRawMessage(raw)
+				e.noteRecv(m, hb)
 				c.Emit(line, e.snapshot())
 			} else {
 				sofar = append(sofar, op)
 				e.advance(a)
 				c.Emit(op, e.snapshot())
 			}
+			e.checkStarted(strings.Join(sofar, ";"))
 			if len(e.deliv) > 1 {
 				c.Class("op-with-multiple-deliveries")
 			}
@@ -127,9 +196,9 @@ func suiteFilter(c *Ctx) {
 	// exhaustive short sequences over a small alphabet (heights 1..3, scripts 0/1, one foreign instance, one own message)
 	alpha := []string{"advance 1", "advance 2", "advance 3"}
 	for h := 1; h <= 3; h++ {
-		alpha = append(alpha, fmt.Sprintf("recv %d 7 2 0", h), fmt.Sprintf("recv %d 7 3 1", h))
+		alpha = append(alpha, fmt.Sprintf("recv %d 7 2 0 0", h), fmt.Sprintf("recv %d 7 3 1 0", h))
 	}
-	alpha = append(alpha, "recv 2 8 2 0", "recv 2 7 1 0")
+	alpha = append(alpha, "recv 2 8 2 0 0", "recv 2 7 1 0 0", "recv 2 7 4 0 1", "recv 1 7 4 0 1")
 	maxLen := 4
 	if c.Thorough() {
 		maxLen = 5
@@ -188,7 +257,11 @@ func suiteFilter(c *Ctx) {
 			if r.Intn(20) == 0 {
 				script = 2
 			}
-			ops[k] = fmt.Sprintf("recv %d %d %d %d", h, inst, sender, script)
+			vb := 0
+			if r.Intn(6) == 0 {
+				vb = 1
+			}
+			ops[k] = fmt.Sprintf("recv %d %d %d %d %d", h, inst, sender, script, vb)
 		}
 		run(ops)
 		c.Class(fmt.Sprintf("random/mode%d", mode))
